@@ -1,5 +1,6 @@
 import SyslModel.Core.Proto
 import SyslModel.Closure.Model
+import SyslModel.Closure.Version
 
 namespace SyslModel.Closure
 open Lean (Json)
@@ -32,6 +33,15 @@ def handle (op : String) (j : Json) : Option Json :=
   | "closure.flatten" =>
       let c := cfgOf j
       some (Json.mkObj [("files", jarr ((flatten c ((arrD j "retrieved").map asNat) (natD j "root")).map jnat))])
+  | "closure.versions" =>
+      -- spellings: [[file index, import target as spelled]]: the key each claims and whether two imports of
+      -- one file ask for different versions
+      let sp := (arrD j "spellings").map (fun e => match asArr e with
+        | [n, s] => (asNat n, (asStr s).toList)
+        | _ => (0, []))
+      let conflict := sp.any fun a => sp.any fun b => a.1 == b.1 && Version.conflict a.2 b.2
+      some (Json.mkObj [("conflict", Json.bool conflict),
+        ("keys", jarr (sp.map fun a => Json.str (String.ofList (Version.index a.2))))])
   | _ => none
 
 end SyslModel.Closure
